@@ -44,7 +44,10 @@ def texts(ctx):
 
 # characters Python calls whitespace but RFC 4880 7.1 does not strip (only SP and TAB are removed at line ends)
 OTHER_SPACE = ['page one\x0c\npage two\x0c', 'vt\x0b\nx', 'fs\x1c\ngs\x1d\nrs\x1e\nus\x1f\n', 'nbsp\xa0\nline', 'ideographic\u3000\nend\u3000', 'nel\x85\nx',
-               'mixed \x0c \t\nx', '\x0c']
+               'mixed \x0c \t\nx', '\x0c',
+               # ... and which are NOT line ends for the dash-escaping rule either (only LF / CR LF are): a dash right after one of them is
+               # in the middle of a line
+               'page\x0c- item\n\x0c--- 3 ---', 'x\u2028-y\n-z', 'a\x0b-b', 'c\x1c-d\x1d-e\x1e-f', 'g\x85-h', 'i\u2029-j']
 NONASCII = ['café au lait', 'naïve — text\nsecond lïne', 'emoji \U0001F600 non-BMP', 'Grüße\n- dashed ü', 'кириллица']
 LONE_CR = ['lone\rcr', 'a\r\rb\n', '\r']
 
